@@ -70,6 +70,7 @@ func init() {
 		"strconv.FormatUint":                       pureFreshString,
 		"encoding/hex.EncodeToString":              pureFreshString,
 		"sort.Strings":                             sortStrings,
+		"sort.Slice":                               sortSlice,
 		"log/slog.Warn":                            pureHavoc,
 		"log/slog.Info":                            pureHavoc,
 		"log/slog.Error":                           pureHavoc,
@@ -323,9 +324,11 @@ func bytesIndexFunc(f *Frame, st *state, callee *ssa.Function, args []Val, ins s
 		return indexFuncStateful(f, st, b, fn, ins, resT)
 	}
 	arr := u.arr(st.mem, byteSite, SBV(8))
-	need(f, st, ins, "IndexFunc:ascii", quantRange(u, "0", b.S[1], func(i string) string {
-		return app("bvult", sel(arr, add(b.S[0], i)), bvLitU(0x80, 8))
-	}))
+	if !comparesWithASCIIConst(fn.Fn) {
+		need(f, st, ins, "IndexFunc:ascii", quantRange(u, "0", b.S[1], func(i string) string {
+			return app("bvult", sel(arr, add(b.S[0], i)), bvLitU(0x80, 8))
+		}))
+	}
 	pred := func(byteTerm string) string {
 		r := app("(_ zero_extend 24)", byteTerm)
 		return u.evalPureClosure(f, st, fn, []Val{{T: types.Typ[types.Rune], S: []string{r}}})
@@ -336,6 +339,37 @@ func bytesIndexFunc(f *Frame, st *state, callee *ssa.Function, args []Val, ins s
 		quantRange(u, "0", r, func(i string) string { return not(pred(sel(arr, add(b.S[0], i)))) }))
 	u.ctx.assert("lib:IndexFunc", or(notFound, found))
 	return &Val{T: resT, S: []string{r}}
+}
+
+// comparesWithASCIIConst: the predicate is exactly "r == C" or "r != C" with C < 0x80. A byte < 0x80 is never part of a
+// multi-byte UTF-8 sequence, and every other rune (decoded or RuneError) differs from C, so IndexFunc returns the first byte
+// index at which the bytewise predicate holds, whatever the other bytes are.
+func comparesWithASCIIConst(fn *ssa.Function) bool {
+	if len(fn.Blocks) != 1 || len(fn.Params) != 1 {
+		return false
+	}
+	var cmp *ssa.BinOp
+	for _, ins := range fn.Blocks[0].Instrs {
+		switch x := ins.(type) {
+		case *ssa.DebugRef:
+		case *ssa.BinOp:
+			if cmp != nil {
+				return false
+			}
+			cmp = x
+		case *ssa.Return:
+			if cmp == nil || len(x.Results) != 1 || x.Results[0] != cmp {
+				return false
+			}
+		default:
+			return false
+		}
+	}
+	if cmp == nil || (cmp.Op.String() != "==" && cmp.Op.String() != "!=") || cmp.X != fn.Params[0] {
+		return false
+	}
+	c, ok := cmp.Y.(*ssa.Const)
+	return ok && c.Value != nil && c.Int64() >= 0 && c.Int64() < 0x80
 }
 
 // isPureSmall: single-return closure without stores, calls or free-variable writes.
@@ -395,6 +429,21 @@ func (f *Frame) pureBlock(b *ssa.BasicBlock, st *state, depth int) string {
 			} else {
 				unsupportedf("pure closure unop %s", x.Op)
 			}
+		case *ssa.IndexAddr:
+			base := f.val(x.X)
+			idx := f.val(x.Index)
+			it := toInt(idx.S[0], x.Index.Type())
+			switch t := x.X.Type().Underlying().(type) {
+			case *types.Slice:
+				f.vals[x] = Val{T: x.Type(), S: []string{add(base.S[0], mul(it, intLit(int64(elemStride(t.Elem())))))}}
+			default:
+				unsupportedf("pure closure IndexAddr on %s", x.X.Type())
+			}
+		case *ssa.FieldAddr:
+			base := f.val(x.X)
+			st0 := x.X.Type().Underlying().(*types.Pointer).Elem()
+			off, _, _ := fieldOffset(st0, x.Field)
+			f.vals[x] = Val{T: x.Type(), S: []string{add(base.S[0], intLit(int64(off)))}, Hint: fieldHint(st0, x.Field)}
 		case *ssa.Convert:
 			v := f.val(x.X)
 			f.vals[x] = Val{T: x.Type(), S: []string{convInt(v.S[0], x.X.Type(), x.Type())}}
@@ -946,4 +995,59 @@ func timeAfter(f *Frame, st *state, callee *ssa.Function, args []Val, ins ssa.In
 func timeBefore(f *Frame, st *state, callee *ssa.Function, args []Val, ins ssa.Instruction, resT types.Type) *Val {
 	i := timeInstantIdx(args[0].T)
 	return &Val{T: resT, S: []string{app("bvslt", args[0].S[i], args[1].S[i])}}
+}
+
+
+// sortSlice models sort.Slice(x, less) for a pure comparison closure: afterwards the elements are a rearrangement of the
+// old ones (every new element is an old one and vice versa, through two uninterpreted index maps) and ordered:
+// for i < j, !less(j, i). Memory outside the slice is unchanged.
+func sortSlice(f *Frame, st *state, callee *ssa.Function, args []Val, ins ssa.Instruction, resT types.Type) *Val {
+	u := f.u
+	call := ins.(*ssa.Call)
+	mi, ok := call.Call.Args[0].(*ssa.MakeInterface)
+	if !ok {
+		return f.abstractCall(st, nil, ins, resT, "sort.Slice on a non-literal argument")
+	}
+	sl, ok := mi.X.Type().Underlying().(*types.Slice)
+	less := args[1]
+	if !ok || less.Fn == nil || !isPureSmall(less.Fn) {
+		return f.abstractCall(st, nil, ins, resT, "sort.Slice with an unsupported comparison")
+	}
+	x := f.val(mi.X)
+	p, n := x.S[0], x.S[1]
+	stride := int64(elemStride(sl.Elem()))
+	ls := leavesOf(sl.Elem(), "elem")
+	perm := u.ctx.fresh("perm")
+	inv := u.ctx.fresh("perminv")
+	u.ctx.declareFun(perm, []string{SInt}, SInt)
+	u.ctx.declareFun(inv, []string{SInt}, SInt)
+	for _, fn := range []string{perm, inv} {
+		u.ctx.assert("lib:sort.Slice", fmt.Sprintf("(forall ((i! Int)) (! (=> (and (<= 0 i!) (< i! %s)) (and (<= 0 (%s i!)) (< (%s i!) %s))) :pattern ((%s i!))))", n, fn, fn, n, fn))
+	}
+	oldArr := map[string]string{}
+	newArr := map[string]string{}
+	for _, l := range ls {
+		if _, done := oldArr[l.Site]; done {
+			continue
+		}
+		old := u.arr(st.mem, l.Site, l.Sort)
+		na := u.ctx.freshConst("Msort:"+l.Site, SArr(SInt, l.Sort))
+		oldArr[l.Site], newArr[l.Site] = old, na
+		u.ctx.assert("lib:sort.Slice", fmt.Sprintf("(forall ((a! Int)) (! (=> (or (< a! %s) (>= a! (+ %s (* %s %d)))) (= (select %s a!) (select %s a!))) :pattern ((select %s a!))))", p, p, n, stride, na, old, na))
+		u.sortOfSite(l.Site, l.Sort)
+		u.putArr(st.mem, l.Site, na)
+	}
+	at := func(arr, idx string, off int) string {
+		return sel(arr, add(p, add(mul(idx, intLit(stride)), intLit(int64(off)))))
+	}
+	for _, l := range ls {
+		u.ctx.assert("lib:sort.Slice", fmt.Sprintf("(forall ((i! Int)) (! (=> (and (<= 0 i!) (< i! %s)) (= %s %s)) :pattern ((%s i!))))", n,
+			at(newArr[l.Site], "i!", l.Off), at(oldArr[l.Site], app(perm, "i!"), l.Off), perm))
+		u.ctx.assert("lib:sort.Slice", fmt.Sprintf("(forall ((j! Int)) (! (=> (and (<= 0 j!) (< j! %s)) (= %s %s)) :pattern ((%s j!))))", n,
+			at(oldArr[l.Site], "j!", l.Off), at(newArr[l.Site], app(inv, "j!"), l.Off), inv))
+	}
+	// ordered by the comparison, evaluated on the new contents
+	lt := u.evalPureClosure(f, st, less, []Val{{T: types.Typ[types.Int], S: []string{"j!"}}, {T: types.Typ[types.Int], S: []string{"i!"}}})
+	u.ctx.assert("lib:sort.Slice", fmt.Sprintf("(forall ((i! Int) (j! Int)) (=> (and (<= 0 i!) (< i! j!) (< j! %s)) (not %s)))", n, lt))
+	return nil
 }
